@@ -24,7 +24,7 @@ PATHS = ("law", "block", "block_valid", "stream", "read_dedisp", "dmt", "dmt_val
 
 
 def REQUIRED(tier):
-    return [f"path:{p}" for p in PATHS] + ["regime:negative_delays", "regime:foff>0", "regime:dm<0", "law_checks", "elements_compared", "regime:multi_file_input", "path:block_second_reference", "tie_sweep_dms", "exact_half_sample_ties", "law_after_stream_checks", "file_depth:4", "file_depth:1", "file_depth:8", "regime:input_header_carries_a_dm"]
+    return [f"path:{p}" for p in PATHS] + ["regime:negative_delays", "regime:foff>0", "regime:dm<0", "law_checks", "elements_compared", "regime:multi_file_input", "path:block_second_reference", "tie_sweep_dms", "exact_half_sample_ties", "law_after_stream_checks", "file_depth:4", "file_depth:1", "file_depth:8", "regime:input_header_carries_a_dm", "path:block_same_dm_twice"]
 
 
 def cases(tier, seed):
@@ -56,6 +56,8 @@ def _hdr(nch, fch1, foff, tsamp, n, nbits=32):
 def _ref_choice(rng, hdr):
     r = rng.choice(["ch1", "max", "min", "center", "numeric"])
     if r == "numeric":
+        if rng.random() < 0.3:     # a reference well outside the band (infinite frequency, or far below): every delay has the same sign
+            return float(rng.choice([2.0 * float(hdr.fmax), 1.0e6, 0.6 * float(hdr.fmin)]))
         return float(rng.uniform(hdr.fmin - 50, hdr.fmax + 50))
     return str(r)
 
@@ -434,5 +436,16 @@ def _paths(case, j, ctx):
             _viol(ctx, "inverse", regime, "dedisperse(DM) then dedisperse(-DM) is not the identity", one)
     except Exception as exc:  # noqa: BLE001
         _viol(ctx, f"inverse-raised:{type(exc).__name__}@{exc_site(exc)}", regime, fmt_exc(exc), one)
+    # the same DM applied again to a block that already records it (e.g. a block from read_dedisp_block): the delays are applied again,
+    # whatever the block says about itself, and the options are honoured
+    ctx.evaluated(); ctx.count("path:block_same_dm_twice")
+    try:
+        once = blk.dedisperse(dm, ref_freq=ref)
+        twice = once.dedisperse(dm, ref_freq=ref)
+        want2 = np.stack([np.roll(xf[c], -2 * int(d[c])) for c in range(nch)])
+        if twice.data.shape != want2.shape or not np.array_equal(twice.data.astype(np.float64), want2):
+            _viol(ctx, "block-dedisperse:same-dm-twice", regime, f"dedisperse({dm}) of a block that already records dm={once.dm}: rows are not rotated by the delays a second time", one)
+    except Exception as exc:  # noqa: BLE001
+        _viol(ctx, f"block-twice-raised:{type(exc).__name__}@{exc_site(exc)}", regime, fmt_exc(exc), one)
     if j == 0:
         ctx.sample({"kind": "paths", "nchans": nch, "n": n, "fch1": fch1, "foff": foff, "tsamp": tsamp, "dm": dm, "ref": ref, "delays": d[:8].tolist()})
